@@ -15,6 +15,8 @@ CLAIMS = {
  "C07": ("TLC recomputes every verify_raw/ctx/ph verdict with the strict cofactored RFC 8032 predicate (EdDSA.tla, with SHA-512 / SHAKE256 in TLA+) and every signature / public key byte-exactly, on honest and adversarially constructed inputs (torsion components in A and R, S >= L, non-canonical and small-order encodings).", TV),
  "C08": ("TLC recomputes every ECDSA verification verdict (ECDSA.tla) and every signature byte-exactly (RFC 6979 HMAC-SHA-256 nonce with extra input for P-256, documented SHA-512 nonce for secp256k1) over key, hash-length, extra-randomness and signature range/length lattices.", TV),
  "C14": ("TLC recomputes X25519 / X448 (RFC 7748 ladder in XDH.tla) for low-order, twist, non-canonical and random u-coordinates and boundary scalars, and the base-point variants against the same specification value.", TV),
+ "C09": ("TLC recomputes every jq255e / jq255s / GLS254 signature byte-exactly (documented BLAKE2s nonce and challenge), every verification verdict, private/public key decoding, and every ECDH status and success key from JqSchnorr.tla over the affine group laws of Quotients.tla / Gls254.tla; failure keys are only required to differ under different local secrets.", TV),
+ "C13": ("TLC validates truncated verification: an exhaustive sweep over every value of the truncated top bits of S (hence every entry of the search table, both directions) using the A = neutral construction with the specification tracking [S]B incrementally, plus honest Ed25519 / P-256 cases over all rm and invalid prefixes checked for soundness against EdDSA.tla / ECDSA.tla.", "TLA+ spec with an incremental witness state + TLC trace validation"),
  "C10": ("TLC validates u*P+v*G, the 128-bit multiplier variant and the verification helpers (relationally: [c](sG - R - kQ) = 0) on boundary multipliers and fraction-shaped challenges; panics are rejected as non-transitions.", TV),
  "C05": ("TLC validates every decode_ct/decode32/decode/decode_reduce/encode call recorded over all lengths 0..3*ENC_LEN+1 and boundary contents against the codec operators of PrimeField.tla.", TV),
  "C11": ("TLC checks the relational split contract (k*c1'=c0' mod q with the documented correction, (0,1) for zero) on every recorded split_vartime call, including fraction-shaped and unbalanced scalars; non-termination is observed by a per-call watchdog and rejected as a non-transition.", "TLA+ relational spec + TLC trace validation; watchdog for termination"),
